@@ -339,6 +339,59 @@ def check_trailing_comment(run: Run) -> None:
         run.violation("R01.6", pm, "Parser.parse_section", "collect_trailing_comment after parse_value", "the reader does not collect the end-of-line comment after the value: emitted trailing comments are not read back")
 
 
+# ======================================================================================= R01.7
+VERBATIM_NAME_FIELDS = {"Section": ["key", "section_id"], "Block": ["key"], "Assignment": ["key"], "Document": ["name"]}
+
+
+def check_name_fields(run: Run) -> None:
+    run.rule("R01.7", "names the emitter writes verbatim (Section.key / section_id, Block.key, Assignment.key) are taken by the parser only from tokens whose text re-lexes to itself: wherever such a name is read from the current token's .value the token cannot be a STRING (a quoted title may contain anything; written back bare it is cut at the first operator or refused)", 4)
+    from ..progress import ParserModel
+    from ..source import enum_members
+
+    tt = enum_members(run.project, "core.lexer", "TokenType")
+    pmodel = ParserModel(run.project, tt)
+    pm = pmodel.pm
+    n = 0
+    for name, fi in pmodel.cls.methods.items():
+        ctors = [c for c in walk_no_nested(fi.node) if isinstance(c, ast.Call) and isinstance(c.func, ast.Name) and c.func.id in VERBATIM_NAME_FIELDS]
+        if not ctors:
+            continue
+        cfg = pmodel.cfg(fi)
+        rt = pmodel.reaching_types(fi)
+        aliases = pmodel.aliases(fi)
+        for c in ctors:
+            for field in VERBATIM_NAME_FIELDS[c.func.id]:  # type: ignore[union-attr]
+                kw = next((k.value for k in c.keywords if k.arg == field), None)
+                if kw is None:
+                    continue
+                seen: set[str] = set()
+                work = [x.id for x in ast.walk(kw) if isinstance(x, ast.Name)]
+                while work:
+                    v = work.pop()
+                    if v in seen:
+                        continue
+                    seen.add(v)
+                    for node in cfg.nodes:
+                        a = node.ast
+                        if not (node.kind == "stmt" and isinstance(a, (ast.Assign, ast.AugAssign))):
+                            continue
+                        tg = a.targets if isinstance(a, ast.Assign) else [a.target]
+                        if not any(isinstance(x, ast.Name) and x.id == v for t in tg for x in ast.walk(t)):
+                            continue
+                        reads_value = any(isinstance(x, ast.Attribute) and x.attr == "value" and ((isinstance(x.value, ast.Call) and _text(x.value) == "self.current()") or (isinstance(x.value, ast.Name) and x.value.id in aliases)) for x in ast.walk(a.value))
+                        if reads_value:
+                            n += 1
+                            ts = rt.get(node.id, frozenset())
+                            ok = "STRING" not in ts or len(ts) > 20  # an unrefined set means the read is not under a test of the current token (alias of an earlier token)
+                            run.instance("R01.7", pm.loc(a), f"{name}: {c.func.id}.{field} <- `{_text(a)[:50]}` with current token in {sorted(ts)[:4]}{'…' if len(ts) > 4 else ''}", ok=ok)  # type: ignore[union-attr]
+                            if not ok:
+                                run.violation("R01.7", pm, fi.qualname, f"{c.func.id}.{field} from a STRING token", f"`{_text(a)[:60]}` takes {c.func.id}.{field} from the current token while it can be a STRING; the emitter writes this name bare, so a quoted title such as \"Q&A\" or \"2nd phase\" canonicalises to text that reads back as a different name (cut at the operator) or not at all")  # type: ignore[union-attr]
+                        else:
+                            work += [x.id for x in ast.walk(a.value) if isinstance(x, ast.Name) and x.id not in seen]
+    if n < 4:
+        raise AnalysisError(f"only {n} reads of a name field from the current token found")
+
+
 def check(run: Run) -> None:
     lm = lexmodel.build(run.project)
     em = run.project.mod("core.emitter")
@@ -351,4 +404,5 @@ def check(run: Run) -> None:
     run.rule("R01.5", "numbers stay in the NUMBER token language: failing int()/float() conversions become LexerError and non-finite floats are refused, so the emitter never writes inf/nan", 3)
     c04.check_number_lexemes(run, "R01.5", lm)
     check_trailing_comment(run)
+    check_name_fields(run)
     run.assume("emit(parse(emit(parse(x)))) == emit(parse(x)) itself, list-layout stability (_needs_multiline vs parse_list), indentation re-reading through INDENT tokens and comment placement other than the assignment trailing comment are not decided")
